@@ -367,6 +367,7 @@ class LinearFilter(LinearFilterProperties):
           right = left + 1
           weight_right = k - left
           weight_left = 1. - weight_right
+          v = thub(v, 2) # A Stream coefficient is used twice
           pairs = [(left, v * weight_left), (right, v * weight_right)]
         for key, value in pairs:
           if key in new_poly:
